@@ -27,6 +27,8 @@ def patterns(spec: Spec) -> list[tuple[str, list[list[typing.Any]]]]:
         ("read1n-1000", [["read1n", 1000]]),
         ("read1", [["read1"]]),
         ("readinto-64", [["readinto", 64]]),
+        ("stream-1", [["stream", 1]]),
+        ("stream-2", [["stream", 2]]),
         ("stream-7", [["stream", 7]]),
         ("stream-1000", [["stream", 1000]]),
         ("stream-none", [["stream", None]]),
@@ -68,7 +70,7 @@ def _reference_decodes(coding: str, data: bytes, step: int) -> str:
             for i in range(0, len(data), step):
                 d.decompress(data[i : i + step])
             return "ok" if d.eof else "incomplete"
-        if coding == "zstd":
+        if coding in ("zstd", "zstdmb"):
             import zstandard
 
             o = zstandard.ZstdDecompressor().decompressobj()
@@ -133,7 +135,7 @@ def damages_for(spec: Spec, head: bytes, body: bytes, enc: bytes, rng: typing.An
             if li % 2 == 0:
                 out.append((Damage("chunksize", a, MUST, False, "empty-line"), head + data[:a] + data[digits_end:]))
     # --- content stream damage inside complete framing (server keeps the connection open) ---
-    if spec.coding in ("gzip", "x-gzip", "deflate", "rawdeflate", "zstd") and len(enc) > 2 and spec.decode:
+    if spec.coding in ("gzip", "x-gzip", "deflate", "rawdeflate", "zstd", "zstdmb") and len(enc) > 2 and spec.decode:
         n = len(enc)
         pts = sorted(set([0, 1, n // 2, n - 1] + [rng.randrange(n) for _ in range(8 if dense else 3)]))
         for p in pts:
@@ -141,11 +143,13 @@ def damages_for(spec: Spec, head: bytes, body: bytes, enc: bytes, rng: typing.An
             ref = reference_decodes(spec.coding, bad)
             # undecodable = the reference decoder raises; a stream that merely stops short is "incomplete", which
             # the statement makes a must-detect for zstd only
-            verdict = MUST if ref == "error" or (ref == "incomplete" and spec.coding == "zstd") else EITHER
+            verdict = MUST if ref == "error" or (ref == "incomplete" and spec.coding in ("zstd", "zstdmb")) else EITHER
             out.append((Damage("content-corrupt", p, verdict, False), rewrap(spec, bad)))
         cuts = sorted(set([1, n // 2, n - 1] + [rng.randrange(1, n) for _ in range(6 if dense else 2)]))
+        if dense and spec.coding in ("zstd", "zstdmb") and n <= 160:
+            cuts = list(range(1, n))  # every cut-off point, including inner block boundaries and the checksum
         for k in cuts:
-            verdict = MUST if spec.coding == "zstd" else EITHER  # the statement restricts incompleteness to zstd
+            verdict = MUST if spec.coding in ("zstd", "zstdmb") else EITHER  # the statement restricts incompleteness to zstd
             out.append((Damage("content-incomplete", k, verdict, False), rewrap(spec, enc[:k])))
     return out
 
@@ -233,7 +237,7 @@ def run_case(rec: Recorder, spec: Spec, dmg: Damage, wire_bytes: bytes, pname: s
 def small_specs() -> list[Spec]:
     out = []
     for size in (5, 100):
-        for coding in ("identity", "gzip", "gzip2", "deflate", "rawdeflate", "zstd", "zstd2", "gzip+deflate"):
+        for coding in ("identity", "gzip", "gzip2", "deflate", "rawdeflate", "zstd", "zstdmb", "zstd2", "gzip+deflate"):
             for framing, sizes in (("cl", []), ("chunked", [3, 1, 7]), ("chunked", [])):
                 for decode in (True, False):
                     if not decode and coding not in ("identity", "gzip"):
